@@ -44,12 +44,6 @@ def coerce_max_errors(max_errors):
     return max_errors
 
 
-def thread(fn):
-    t = threading.Thread(target=fn)
-    t.start()
-    return t
-
-
 DONE = object()
 
 
@@ -64,7 +58,7 @@ def worker_thread(queue, process_item):
             finally:
                 queue.task_done()
 
-    return thread(process_items)
+    return threading.Thread(target=process_items)
 
 
 @contextmanager
@@ -73,13 +67,17 @@ def worker_pool(queue, process_item, worker_count, release_workers):
     try:
         try:
             for _ in range(worker_count):
-                workers.append(worker_thread(queue, process_item))
+                # Record the worker before starting it: an interrupt inside start() must not orphan a running thread.
+                worker = worker_thread(queue, process_item)
+                workers.append(worker)
+                worker.start()
             yield
         finally:
             release_workers()
     finally:
         for worker in workers:
-            worker.join()
+            if worker.ident is not None:
+                worker.join()
 
 
 class PreparedNodes(NamedTuple):
